@@ -25,7 +25,10 @@ Fixpoint lookup_orc (tbl : list sx) (f b : Z) (s : str) : option Z :=
 Definition dec_call (x : sx) : call :=
   match as_Z (nth_sx 0 x) with
   | 0 => CScalar (to_string (as_str (nth_sx 1 x))) (as_str (nth_sx 2 x)) (as_Z (nth_sx 3 x))
-  | _ => CSlice (to_string (as_str (nth_sx 1 x))) (map as_str (as_list (nth_sx 2 x))) (map as_Z (as_list (nth_sx 3 x)))
+  | 1 => CSlice (to_string (as_str (nth_sx 1 x))) (map as_str (as_list (nth_sx 2 x))) (map as_Z (as_list (nth_sx 3 x)))
+  | _ => (* BindWithDelimiter: (2 slice-method (value ...) (dest ...) delimiter) *)
+         CSlice (to_string (as_str (nth_sx 1 x))) (flat_map (split (as_str (nth_sx 4 x))) (map as_str (as_list (nth_sx 2 x))))
+                (map as_Z (as_list (nth_sx 3 x)))
   end.
 Definition enc_dest (d : dest_val) : sx :=
   match d with DScalar z => SL [SZ 0; SZ z] | DSlice l => SL [SZ 1; SL (map SZ l)] | DUnknownMethod => SL [SZ 2] end.
